@@ -184,12 +184,29 @@ func (tm *typesMap) nameOf(typs []types.Type) (string, bool) {
 			}
 		}
 	}
+	// Several entries can match when types are mutually assignable (named and unnamed types,
+	// bidirectional and directional channels): prefer an entry with identical types, then the
+	// smallest name, so that the result does not depend on map iteration order.
+	found, ok, exact := "", false, false
 	for name, ts := range tm.funcToTyps {
-		if eq(typs, ts) {
-			return name, true
+		if !eq(typs, ts) {
+			continue
+		}
+		id := identical(typs, ts)
+		if !ok || (id && !exact) || (id == exact && name < found) {
+			found, ok, exact = name, true, id
 		}
 	}
-	return "", false
+	return found, ok
+}
+
+func identical(this, that []types.Type) bool {
+	for i, t := range this {
+		if !types.Identical(types.Default(t), types.Default(that[i])) {
+			return false
+		}
+	}
+	return true
 }
 
 func (tm *typesMap) Generating(typs ...types.Type) {
